@@ -83,6 +83,12 @@ def create_pyopenssl_server_context(
     else:
         ctx.set_verify(SSL.VERIFY_NONE, lambda *args: True)
 
+    # A session id context is required as soon as client certificates are requested:
+    # without one OpenSSL aborts every handshake in which the client offers to
+    # resume an earlier session ("session id context uninitialized"), so a returning
+    # client got no answer at all. (Python's ssl module sets one by itself.)
+    ctx.set_session_id(b"nauyaca")
+
     return ctx
 
 
